@@ -2748,3 +2748,35 @@ Proof.
   vm_compute in E. destruct E; discriminate.
 Qed.
 End Refute.
+
+(* Why the theorems take add_destinations as the FIRST operation: messages logged before it
+   are buffered and replayed by Destinations.add; a destination failing during the replay gets
+   its failure report logged (at the then-next position) and delivered BEFORE the remaining
+   buffered messages.  Uniqueness survives, but emission order <> level order at the accepting
+   destination.  Replayed on /repo (start_action; 2 x log_message; add_destinations(bad, good))
+   the accepting destination sees levels [1] [4] [2] [5] [3] [6] -- same as the model. *)
+Module Buffered.
+Import Ex.
+Definition ops_b : list (nat * op) :=
+  [ (0, OStart 1 false (A 21) [] None); (0, OEnter 1);
+    (0, OLog (A 22) [] None); (0, OLog (A 23) [] None);
+    (0, OAddDests [mk_dest 1 BNotReports e1; mk_dest 0 BNever e1]) ].
+
+Example buffered_replay_levels :
+  map (fun m => fget K_level m) (trace_of (run cfg0 ops_b init_state) 0) =
+  [ Some (VLevel [1%positive]); Some (VLevel [4%positive]); Some (VLevel [2%positive]);
+    Some (VLevel [5%positive]); Some (VLevel [3%positive]); Some (VLevel [6%positive]) ].
+Proof. vm_compute. reflexivity. Qed.
+
+Theorem C02_buffered_replay_refuted :
+  ~ emission_ordered (trace_of (run cfg0 ops_b init_state) 0).
+Proof.
+  intros H.
+  assert (X : exists m0 m1 m2 rest,
+            trace_of (run cfg0 ops_b init_state) 0 = [m0] ++ m1 :: [] ++ m2 :: rest /\
+            place m1 = mkplace 0 ([] ++ [4%positive]) /\ place m2 = mkplace 0 ([] ++ [2%positive])).
+  { vm_compute. do 4 eexists. repeat split. }
+  destruct X as (m0 & m1 & m2 & rest & E & P1 & P2).
+  specialize (H _ _ _ _ _ _ _ _ _ E P1 P2). discriminate.
+Qed.
+End Buffered.
